@@ -76,10 +76,16 @@ impl CompoundSelector {
             Opt::Any => vec![],
             Opt::None => return Opt::None,
         };
-        Opt::Some(Self {
+        let result = Self {
             pseudo,
             ..self.clone()
-        })
+        };
+        if result.is_empty() && !self.is_empty() {
+            // Only pseudo-classes that match anything were removed.
+            Opt::Any
+        } else {
+            Opt::Some(result)
+        }
     }
 
     pub(super) fn dedup(&mut self, original: &Self) {
